@@ -30,6 +30,8 @@ FLOORS = {
                  'trans:number->blank': 300, 'trans:blank->number': 200,
                  'write_before_dependant_built': 300, 'cfg:xlsx': 300, 'cfg:pkl': 100},
 }
+for _tier in FLOORS:
+    FLOORS[_tier]['suite:tests'] = 2000          # the repository's own suite ran under the monitors
 ASSUMPTIONS = [
     'the oracle is pycel itself on a brand-new in-memory compile (the statement names it as the '
     'specification); defects shared by first evaluation and re-evaluation are the business of C02/C10-C20',
@@ -443,6 +445,10 @@ def used_area_growth(ctx):
 
 
 def run(ctx):
+    if ctx.shard == ctx.nshards - 1:
+        # the repository's own test-suite as one more workload under the monitors (vp.suitemon)
+        from vp import suiteload
+        suiteload.run_suite(ctx)
     rng = ctx.rng
     i = 0
     if ctx.shard == 0:
@@ -476,6 +482,10 @@ def run(ctx):
 
 
 def replay(ctx, case):
+    if case.get('kind') == 'suite':
+        from vp import suiteload
+        suiteload.run_suite(ctx)
+        return
     if case.get('kind') == 'real-book':
         realbooks.c01_case(ctx, case['book'], case['case_seed'])
         return
